@@ -26,7 +26,8 @@ def toksStr : Option (List Tok) → String
 def parseNats (s : String) : Option (List Nat) := (s.splitOn ",").mapM String.toNat?
 
 /-- fields: tmpl fqname shellName stdout stderr workdir threadEnvs envs cmd argv
-nums(threads,mem,vmem,threadsPerJob,memPerJob,extraVmem,memPerCore,alwaysVmem) account special mappings resOpt -/
+nums(threads,mem,vmem as the decimal IEEE-754 bit patterns of the float64 requests,
+threadsPerJob,memPerJob,extraVmem,memPerCore,alwaysVmem) account special mappings resOpt -/
 def parseJob : List String → Option JobIn
   | [tmpl, fq, sh, so, se, wd, tenv, envs, cmd, argv, nums, acct, spec, maps, ro] => do
     let ns ← parseNats nums
@@ -35,7 +36,8 @@ def parseJob : List String → Option JobIn
       pure { tmpl := ← bytesOfHex tmpl, fqname := ← bytesOfHex fq, shellName := ← bytesOfHex sh,
              stdout := ← bytesOfHex so, stderr := ← bytesOfHex se, workdir := ← bytesOfHex wd,
              threadEnvs := ← parseHexList tenv, envs := ← parsePairs envs, cmd := ← bytesOfHex cmd,
-             argv := ← parseHexList argv, threads := t, memGB := m, vmemGB := v, threadsPerJob := tpj,
+             argv := ← parseHexList argv, threads := Float.ofBits t.toUInt64, memGB := Float.ofBits m.toUInt64,
+             vmemGB := Float.ofBits v.toUInt64, threadsPerJob := tpj,
              memGBPerJob := mpj, extraVmemGB := ex, memGBPerCore := mpc, alwaysVmem := av != 0,
              account := ← bytesOfHex acct, special := ← bytesOfHex spec, mappings := ← parsePairs maps,
              resOpt := ← bytesOfHex ro }
@@ -66,21 +68,27 @@ def handle (op : String) (args : List String) : Option String :=
   | "toks", [s] => do
     let b ← bytesOfHex s
     pure (toksStr (shToks b))
-  | "jobscript", args => do
-    let j ← parseJob args
-    pure (hexOfBytes (jobScript Gen.shellEscapes j))
   -- shipped template by name: the template text the segments stand for, the
   -- segment-level rendering, the byte-level rendering of that text, the tokens
   -- the theorems promise, and whether every line has a covered shape
   | "render", name :: args => do
     let ls ← Gen.jobTemplates.lookup name
     let j0 ← parseJob (("-" : String) :: args)
-    let j := { j0 with tmpl := templateText ls }
+    let j := { j0 with tmpl := templateTextK Gen.jobScriptKeys ls }
     let ps := params Gen.shellEscapes j
     let covered := ls.all fun l => shapeOf l != Shape.other
     pure (hexOfBytes j.tmpl ++ " " ++ hexOfBytes (renderScript (valsOf ps) ls) ++ " "
       ++ hexOfBytes (jobScript Gen.shellEscapes j) ++ " " ++ boolStr covered ++ " "
       ++ toksStr (some (expectedToks (givenOf Gen.shellEscapes j) ls)))
+  -- arbitrary template text: cut it into segments; when the segmentation spells the text and is
+  -- well formed, theorem replacer_is_renderScript promises renderScript = the replacer
+  | "wfrender", args => do
+    let j ← parseJob args
+    let ls := segmentText Gen.jobScriptKeys j.tmpl
+    let spelled := templateTextK Gen.jobScriptKeys ls == j.tmpl
+    let wf := spelled && wfTemplate Gen.jobScriptKeys maybeEmptyParams ls
+    pure (boolStr wf ++ " " ++ hexOfBytes (renderScript (valsOf (params Gen.shellEscapes j)) ls)
+      ++ " " ++ hexOfBytes (jobScript Gen.shellEscapes j))
   | "templates", [] => pure (",".intercalate (Gen.jobTemplates.map (·.1)))
   | _, _ => none
 
